@@ -41,6 +41,8 @@ struct Case {
   double margin = 0.;        // distance (length) of the input from exact degeneracy / size of its smallest feature
   double margin_ratio = 0.;  // margin / (100 * snapping distance of the old construction)
   int threads = 1;           // >1: also construct with this many threads and compare
+  bool monitor = false;      // drive every cell by hand and check the search-radius invariants after every insertion
+  bool local_tol = false;    // volume-sum tolerance from the per-cell conditioning instead of the global worst case
 };
 
 /// documented plane-test tolerance of the old construction (OldVoronoiCell.hpp:66). The allowances of
@@ -192,6 +194,33 @@ static Case lattice_case(int n, const BoxShape &B, double pert, long seed) {
   c.family = pert == 0. ? "lattice-exact" : fmt("lattice-perturbed-%g", pert);
   c.name = fmt("lattice:n=%d:box=%s:pert=%g", n, B.name, pert);
   c.margin = 0.5 * pert * std::min(B.sides.x(), std::min(B.sides.y(), B.sides.z())) / n;
+  finish_case(c);
+  return c;
+}
+
+/// lattice with different point counts per axis (cell centred), pert in units of the smallest spacing
+static Case lattice3_case(int nx, int ny, int nz, const BoxShape &B, double pert, long seed) {
+  Case c;
+  c.anchor = B.anchor;
+  c.sides = B.sides;
+  const int nmax = std::max(nx, std::max(ny, nz));
+  long q = 0;
+  for (int i = 0; i < nx; ++i)
+    for (int j = 0; j < ny; ++j)
+      for (int k = 0; k < nz; ++k, ++q) {
+        V3 p((i + 0.5) / nx, (j + 0.5) / ny, (k + 0.5) / nz);
+        if (pert > 0.) {
+          const V3 d = pattern(q, seed);
+          p += V3(pert * d.x() / nmax, pert * d.y() / nmax, pert * d.z() / nmax);
+        }
+        c.gen.push_back(V3(B.anchor.x() + p.x() * B.sides.x(), B.anchor.y() + p.y() * B.sides.y(),
+                           B.anchor.z() + p.z() * B.sides.z()));
+      }
+  c.degenerate = (pert == 0.);
+  c.family = pert == 0. ? "lattice-nxnynz-exact" : fmt("lattice-nxnynz-perturbed-%g", pert);
+  c.name = fmt("lattice3:n=%dx%dx%d:box=%s:pert=%g", nx, ny, nz, B.name, pert);
+  c.margin = 0.5 * pert * std::min(B.sides.x(), std::min(B.sides.y(), B.sides.z())) / nmax;
+  c.local_tol = false;
   finish_case(c);
   return c;
 }
@@ -348,6 +377,24 @@ static std::vector< Case > family_cases(bool thorough, long seed) {
       if (n <= 8 || b == 0)
         L.push_back(lattice_case(n, BOXES[b], 0.3, seed));
     }
+  // lattices with a different number of points per axis, including a single layer (exactly coplanar
+  // generators) and a single row (exactly collinear generators)
+  {
+    static const int dims_q[][3] = {{1, 2, 3}, {2, 3, 4}, {3, 2, 5}, {4, 5, 3}, {1, 1, 2}, {1, 3, 1}, {5, 1, 4}};
+    static const int dims_t[][3] = {{1, 2, 3}, {2, 3, 4}, {3, 2, 5}, {4, 5, 3}, {1, 1, 2}, {1, 3, 1},  {5, 1, 4},
+                                    {2, 1, 1}, {1, 1, 7}, {6, 1, 1}, {2, 9, 4}, {5, 7, 3}, {7, 4, 10}, {3, 11, 6}};
+    const int nd = thorough ? 14 : 7;
+    for (int k = 0; k < nd; ++k) {
+      const int *dd = thorough ? dims_t[k] : dims_q[k];
+      for (int b = 0; b < nbox; ++b) {
+        if (!thorough && b != k % 4 && b != (k + 1) % 4)
+          continue;
+        L.push_back(lattice3_case(dd[0], dd[1], dd[2], BOXES[b], 0., seed));
+        L.push_back(lattice3_case(dd[0], dd[1], dd[2], BOXES[b], 1.e-3, seed));
+        L.push_back(lattice3_case(dd[0], dd[1], dd[2], BOXES[b], 0.3, seed));
+      }
+    }
+  }
   for (int b = 0; b < nbox; ++b)
     for (int corner = 0; corner < 8; ++corner) {
       if (!thorough && corner != 0 && corner != 7 && corner != 2)
@@ -386,6 +433,378 @@ static std::vector< Case > near_degenerate_shells(bool thorough, long seed) {
   return L;
 }
 
+
+// ---- (iv): generic sets up to 2000 generators (named deterministic families) -------------------
+// The members are fixed finite point sets: member m of family F with n generators in box B is generated
+// by splitmix64 started from fnv1a("F:n:B:m"); VERIF_SEED does not enter (it only rotates the order in
+// which the cases are run). Nothing is sampled at run time: the list below is the alphabet.
+struct Rng {
+  uint64_t s;
+  explicit Rng(const std::string &name) : s(fnv1a(name)) {}
+  uint64_t next() {
+    uint64_t z = (s += 0x9E3779B97F4A7C15ull);
+    z = (z ^ (z >> 30)) * 0xBF58476D1CE4E5B9ull;
+    z = (z ^ (z >> 27)) * 0x94D049BB133111EBull;
+    return z ^ (z >> 31);
+  }
+  /// uniform in (0,1), never 0 or 1
+  double u() { return ((next() >> 11) + 0.5) * (1. / 9007199254740992.); }
+};
+
+static V3 to_box(const BoxShape &B, const V3 &f) {
+  return V3(B.anchor.x() + f.x() * B.sides.x(), B.anchor.y() + f.y() * B.sides.y(),
+            B.anchor.z() + f.z() * B.sides.z());
+}
+
+static Case generic_shell(const char *family, const std::string &name, const BoxShape &B) {
+  Case c;
+  c.anchor = B.anchor;
+  c.sides = B.sides;
+  c.family = family;
+  c.name = name;
+  c.margin = -1.; // generic: smallest feature = half the smallest generator distance
+  c.monitor = true;
+  c.local_tol = true;
+  return c;
+}
+
+/// n independent uniform points
+static Case uniform_case(int n, const BoxShape &B, int member) {
+  Case c = generic_shell("uniform-random", fmt("uniform:n=%d:box=%s:m=%d", n, B.name, member), B);
+  Rng R(c.name);
+  for (int i = 0; i < n; ++i) {
+    const double x = R.u(), y = R.u(), z = R.u();
+    c.gen.push_back(to_box(B, V3(x, y, z)));
+  }
+  finish_case(c);
+  return c;
+}
+
+/// strongly clustered: three power-law clusters (radius 0.3 u^2.5: a quarter of the members within 0.01 of
+/// the centre) on a 10 % uniform background; fractional separations below `sep` are rejected (sep 1e-3 keeps
+/// the unit-box members inside the domain of the old construction, density contrast ~1e6)
+static Case clustered_case(int n, const BoxShape &B, int member, double sep) {
+  Case c = generic_shell("clustered-power-law", fmt("clustered:n=%d:box=%s:sep=%g:m=%d", n, B.name, sep, member), B);
+  Rng R(c.name);
+  V3 centre[3];
+  for (int k = 0; k < 3; ++k)
+    centre[k] = V3(0.2 + 0.6 * R.u(), 0.2 + 0.6 * R.u(), 0.2 + 0.6 * R.u());
+  std::vector< V3 > f;
+  while ((int)f.size() < n) {
+    V3 p;
+    if (R.u() < 0.1) {
+      p = V3(R.u(), R.u(), R.u());
+    } else {
+      const int k = (int)(3. * R.u());
+      V3 d;
+      double d2;
+      do {
+        d = V3(2. * R.u() - 1., 2. * R.u() - 1., 2. * R.u() - 1.);
+        d2 = d.norm2();
+      } while (d2 > 1. || d2 < 1.e-4);
+      const double r = 0.3 * std::pow(R.u(), 2.5);
+      p = centre[k % 3] + (r / std::sqrt(d2)) * d;
+    }
+    if (!(p.x() > 1.e-6 && p.x() < 1. - 1.e-6 && p.y() > 1.e-6 && p.y() < 1. - 1.e-6 && p.z() > 1.e-6 &&
+          p.z() < 1. - 1.e-6))
+      continue;
+    bool close = false;
+    for (const V3 &q : f)
+      if ((p - q).norm2() < sep * sep) {
+        close = true;
+        break;
+      }
+    if (!close)
+      f.push_back(p);
+  }
+  for (const V3 &p : f)
+    c.gen.push_back(to_box(B, p));
+  finish_case(c);
+  return c;
+}
+
+/// uniform points of which every coordinate is, with probability 0.3, moved to within `e` of a wall
+static Case nearwall_random_case(int n, const BoxShape &B, int member, double e) {
+  Case c = generic_shell("near-wall-random", fmt("nearwall:n=%d:box=%s:e=%g:m=%d", n, B.name, e, member), B);
+  Rng R(c.name);
+  for (int i = 0; i < n; ++i) {
+    double f[3];
+    for (int a = 0; a < 3; ++a) {
+      f[a] = R.u();
+      const double sel = R.u(), w = e * R.u();
+      if (sel < 0.15)
+        f[a] = w;
+      else if (sel < 0.3)
+        f[a] = 1. - w;
+    }
+    c.gen.push_back(to_box(B, V3(f[0], f[1], f[2])));
+  }
+  finish_case(c);
+  return c;
+}
+
+/// nearly coplanar: 95 % of the points within amp/2 of the tilted plane z = 0.37 + 0.21 (x-0.5) + 0.13 (y-0.5),
+/// the rest uniform. The sheet cells are long columns (spikes) normal to the sheet.
+static Case sheet_case(int n, const BoxShape &B, int member, double amp) {
+  Case c = generic_shell("nearly-coplanar-sheet", fmt("sheet:n=%d:box=%s:amp=%g:m=%d", n, B.name, amp, member), B);
+  Rng R(c.name);
+  for (int i = 0; i < n; ++i) {
+    const double x = R.u(), y = R.u(), t = R.u(), sel = R.u();
+    double z = 0.37 + 0.21 * (x - 0.5) + 0.13 * (y - 0.5) + amp * (t - 0.5);
+    if (sel < 0.05)
+      z = t;
+    c.gen.push_back(to_box(B, V3(x, y, z)));
+  }
+  finish_case(c);
+  return c;
+}
+
+static const int GENERIC_SMALL_N[] = {
+    // counts 0/1 of "other generators" do not exist (>= 2 generators); 2, 3 and >= 3; both sides of every
+    // block-count threshold of PointLocations (ncell = round(cbrt(n / per_cell)), integer division; per_cell
+    // = 1 for the new construction: n = 3|4 (1->2 blocks), 15|16 (2->3), 42|43 (3->4); per_cell = 10 for the
+    // old one: n = 9|10|11, 19|20, 39|40 (1->2), 159|160 (2->3)); both sides of the job size 100 of the
+    // construction job markets (99|100|101, 199|200|201)
+    2, 3, 4, 5, 9, 10, 11, 15, 16, 19, 20, 39, 40, 42, 43, 99, 100, 101, 159, 160, 199, 200, 201};
+
+static std::vector< Case > generic_cases(bool thorough) {
+  std::vector< Case > L;
+  // large members first (they dominate the run time)
+  const int nbig = thorough ? 12 : 2;
+  for (int m = 0; m < nbig; ++m)
+    for (int b = 0; b < 4; ++b) {
+      if (!thorough && b != (m % 2 ? 1 : 0))
+        continue; // quick: member 0 in the unit cube, member 1 in the 1x2x4 box
+      if (thorough && m >= 4 && b != 0)
+        continue; // thorough: 4 members in every box, 12 in the unit cube
+      L.push_back(uniform_case(2000, BOXES[b], m));
+    }
+  // (the incremental construction needs ~12 s for a clustered set of 2000 and 5 s for one of 1000, and the
+  // monitor as much again: thorough tier only; the quick tier has clustered sets of 500)
+  if (thorough)
+    for (int b = 0; b < 4; ++b)
+      for (int m = 0; m < 2; ++m) {
+        L.push_back(clustered_case(2000, BOXES[b], m, 1.e-3));
+        L.push_back(nearwall_random_case(2000, BOXES[b], m, 1.e-3));
+        if (m == 0) {
+          L.push_back(clustered_case(2000, BOXES[b], m, 1.e-5));
+          // (a sheet of 2000 costs the incremental construction minutes: 1000 is the largest sheet)
+          L.push_back(sheet_case(1000, BOXES[b], m, 1.e-3));
+        }
+      }
+  else
+    L.push_back(clustered_case(500, BOXES[0], 0, 1.e-3));
+  {
+    const int mid[] = {500, 1000, 1500};
+    for (int k = 0; k < 3; ++k)
+      for (int b = 0; b < 4; ++b) {
+        if (!thorough && (b != (k + 1) % 4 || k == 2))
+          continue; // quick: 500 in the 1x2x4 box, 1000 in the 1x1x100 box
+        for (int m = 0; m < (thorough ? 2 : 1); ++m) {
+          L.push_back(uniform_case(mid[k], BOXES[b], m));
+          if (thorough || k == 0) {
+            L.push_back(clustered_case(mid[k], BOXES[b], m, 1.e-3));
+            L.push_back(nearwall_random_case(mid[k], BOXES[b], m, 1.e-3));
+            // (a sheet of 500 costs the incremental construction as much as a uniform set of 2000)
+            if (k == 0 && (m == 0 || !thorough))
+              L.push_back(sheet_case(thorough ? 500 : 300, BOXES[b], m, 1.e-3));
+          }
+          if (thorough && m == 0) {
+            L.push_back(nearwall_random_case(mid[k], BOXES[b], m, 1.e-5));
+            if (k == 0)
+              L.push_back(sheet_case(500, BOXES[b], m, 1.e-2));
+          }
+        }
+      }
+  }
+  const int nsmall = (int)(sizeof(GENERIC_SMALL_N) / sizeof(int));
+  for (int k = 0; k < nsmall; ++k) {
+    const int n = GENERIC_SMALL_N[k];
+    for (int b = 0; b < 4; ++b) {
+      if (!thorough && b != k % 4 && b != (k + 1) % 4)
+        continue; // quick: two of the four boxes per size, rotating
+      for (int m = 0; m < (thorough ? 4 : 2); ++m) {
+        L.push_back(uniform_case(n, BOXES[b], m));
+        if (n >= 5 && (thorough || m == 0)) {
+          L.push_back(clustered_case(n, BOXES[b], m, 1.e-3));
+          L.push_back(nearwall_random_case(n, BOXES[b], m, 1.e-3));
+          L.push_back(sheet_case(n, BOXES[b], m, 1.e-3));
+        }
+      }
+    }
+  }
+  return L;
+}
+
+// ---- (v): spikes: cells with one far vertex against the block shells of the neighbour search --------
+// Generator g sits in a block of the point-location grid; k cone neighbours at distance 2 dn whose bisector
+// planes meet in an apex at distance R from g in direction d; a back neighbour closes the cone behind g, so
+// that the apex is the single far vertex of the cell (all others within ~0.08); a generator h at distance D
+// from g in direction d: for D < 2R its bisector plane cuts the apex off, for D > 2R it does not touch the
+// cell. Fillers (fixed pseudo-random) stay farther than 2R from g. Both constructions have to continue their
+// neighbour search over the block shells exactly as long as the covered radius is below twice the apex
+// distance. Enumerated: R, D/R on both sides of 2, direction (axes, face and body diagonals, a generic one),
+// position of g inside its block, number of cone neighbours (3, 4), every order of the special generators
+// in the index list (the order of insertion inside a block, i.e. which vertex is the oldest), specials
+// before/after the fillers, total number of generators (block counts 3^3 / 5^3 old, 6^3 / 11^3 new).
+struct SpikeParam {
+  int ntot, k, dir, off, perm, first, box;
+  double R, DoverR;
+};
+static const double SPIKE_DIRS[][3] = {
+    {1, 0, 0},  {-1, 0, 0}, {0, 1, 0},   {0, -1, 0}, {0, 0, 1},  {0, 0, -1},  {1, 1, 0},   {1, -1, 0},
+    {-1, 0, 1}, {0, 1, 1},  {0, -1, -1}, {1, 0, -1}, {1, 1, 1},  {-1, 1, 1},  {1, -1, -1}, {-1, -1, 1},
+    {0.8, 0.31, -0.52}, {-0.23, 0.41, 0.88}};
+static const int SPIKE_NDIR = 18;
+static const double SPIKE_OFF[][3] = {{0., 0., 0.}, {0.3, 0., 0.}, {-0.25, 0.3, 0.2}}; // in units of the old block
+static const double SPIKE_R[] = {0.10, 0.14, 0.19, 0.26};
+static const double SPIKE_DR[] = {0.9, 1.3, 1.7, 1.95, 2.1};
+
+/// the special generators of a spike member in fractional coordinates: g, cone, back neighbour (in the order
+/// of the index list) and h last; `g_out` = position of g
+static std::vector< V3 > spike_head(const SpikeParam &S, V3 &g_out) {
+  const int nb = (int)std::round(std::cbrt((double)(S.ntot / 10))); // blocks per axis of the old construction
+  const double b = 1. / nb;
+  V3 d(SPIKE_DIRS[S.dir][0], SPIKE_DIRS[S.dir][1], SPIKE_DIRS[S.dir][2]);
+  d = d / d.norm();
+  // g: centre of the middle block (for an even block count: the one that leaves room in direction d) + offset
+  V3 g;
+  for (int a = 0; a < 3; ++a) {
+    const int idx = d[a] >= 0. ? (nb - 1) / 2 : nb / 2;
+    g[a] = (idx + 0.5 + SPIKE_OFF[S.off][a]) * b;
+  }
+  // orthonormal frame (d, e1, e2)
+  const V3 t = std::fabs(d.x()) < 0.7 ? V3(1., 0., 0.) : V3(0., 1., 0.);
+  V3 e1 = V3::cross_product(d, t);
+  e1 = e1 / e1.norm();
+  const V3 e2 = V3::cross_product(d, e1);
+  const double dn = 0.03; // distance of the cone planes from g
+  const double nx = dn / S.R, np = std::sqrt(1. - nx * nx);
+  std::vector< V3 > special; // cone neighbours, back neighbour
+  for (int q = 0; q < S.k; ++q) {
+    const double phi = 2. * M_PI * q / S.k + 0.3;
+    const V3 nrm = nx * d + (np * std::cos(phi)) * e1 + (np * std::sin(phi)) * e2;
+    special.push_back(g + (2. * dn) * nrm);
+  }
+  special.push_back(g - 0.068 * d);
+  // order of the specials in the index list: permutation number S.perm of (cone.., back)
+  std::vector< int > order(special.size());
+  for (size_t i = 0; i < order.size(); ++i)
+    order[i] = (int)i;
+  for (int q = 0; q < S.perm; ++q)
+    std::next_permutation(order.begin(), order.end());
+  std::vector< V3 > head;
+  if (S.first & 1)
+    head.push_back(g);
+  for (int i : order)
+    head.push_back(special[i]);
+  if (!(S.first & 1))
+    head.push_back(g);
+  head.push_back(g + (S.DoverR * S.R) * d);
+  g_out = g;
+  return head;
+}
+
+/// the member exists iff g, the cone, the back neighbour and h lie strictly inside the box
+static bool spike_exists(const SpikeParam &S) {
+  V3 g;
+  for (const V3 &p : spike_head(S, g))
+    if (!(p.x() > 1.e-3 && p.x() < 1. - 1.e-3 && p.y() > 1.e-3 && p.y() < 1. - 1.e-3 && p.z() > 1.e-3 &&
+          p.z() < 1. - 1.e-3))
+      return false;
+  return true;
+}
+
+static Case spike_case(const SpikeParam &S) {
+  const BoxShape &B = BOXES[S.box];
+  Case c = generic_shell("spike", fmt("spike:n=%d:k=%d:dir=%d:off=%d:R=%g:D/R=%g:perm=%d:first=%d:box=%s", S.ntot,
+                                      S.k, S.dir, S.off, S.R, S.DoverR, S.perm, S.first, B.name), B);
+  V3 g;
+  const std::vector< V3 > head = spike_head(S, g);
+  const V3 h = head.back();
+  // fillers outside the sphere of radius 2.05 R around g (and not closer than 0.02 to h)
+  Rng Rn(fmt("spike-fill:%d:%d:%d:%g", S.ntot, S.dir, S.off, S.R));
+  std::vector< V3 > fill;
+  while (head.size() + fill.size() < (size_t)S.ntot) {
+    const V3 p(0.001 + 0.998 * Rn.u(), 0.001 + 0.998 * Rn.u(), 0.001 + 0.998 * Rn.u());
+    if ((p - g).norm() < 2.05 * S.R || (p - h).norm() < 0.02)
+      continue;
+    fill.push_back(p);
+  }
+  std::vector< V3 > all;
+  if (S.first & 2) {
+    all = fill;
+    all.insert(all.end(), head.begin(), head.end());
+  } else {
+    all = head;
+    all.insert(all.end(), fill.begin(), fill.end());
+  }
+  for (const V3 &p : all)
+    c.gen.push_back(to_box(B, p));
+  // the monitor costs as much as the constructions: every second member
+  c.monitor = ((S.perm + S.first + S.dir + S.off) % 2 == 0);
+  finish_case(c);
+  return c;
+}
+
+static int factorial(int n) { return n <= 1 ? 1 : n * factorial(n - 1); }
+
+/// Quick: 60 generators (2^3 blocks old, 4^3 new), 6 directions; all 24 orders of the special generators for
+/// the first direction / centred g / 3 cone neighbours / R = 0.14, 0.26, elsewhere (3 or 4 cone neighbours in
+/// turn) the identity order (back neighbour last: the apex is the oldest vertex) and the reversed one, D/R rotating plus 1.95 or 2.1 (the two sides of 2) in turn.
+/// Thorough: 60 generators: 18 directions x 3 offsets x 4 R x 5 D/R x 3 and 4 cone neighbours x 4 orders (the
+/// two ends and two in between), position of g / of the specials in the index list rotating; for the 6 quick
+/// directions, centred g, 3 cone neighbours: all 24 orders x g first / last (+ specials after the fillers for
+/// the two end orders). 270 and 1250 generators (3^3 / 5^3 blocks old, 6^3 / 11^3 new), 3 cone neighbours:
+/// identity and reversed order, 6 directions x 2 offsets resp. 4 directions, centred g, R = 0.14, 0.26.
+static std::vector< SpikeParam > spike_params(bool thorough) {
+  std::vector< SpikeParam > L;
+  const int dirs_q[] = {0, 3, 4, 7, 13, 16};
+  const int ntots[] = {60, 270, 1250};
+  static const int bsel[4] = {0, 0, 3, 1}; // unit cube (half of the members), shifted unit cube, 1x2x4
+  for (int in = 0; in < (thorough ? 3 : 1); ++in) {
+    const int ndir = (in == 0 && thorough) ? SPIKE_NDIR : (in == 2 ? 4 : 6);
+    for (int k = 3; k <= 4; ++k)
+      for (int idir = 0; idir < ndir; ++idir) {
+        const int dir = (in == 0 && thorough) ? idir : dirs_q[idir];
+        for (int off = 0; off < 3; ++off)
+          for (int ir = 0; ir < 4; ++ir)
+            for (int id = 0; id < 5; ++id) {
+              const int nperm = factorial(k + 1);
+              for (int perm = 0; perm < nperm; ++perm)
+                for (int first = 0; first < 4; ++first) {
+                  bool keep;
+                  const bool ends = (perm == 0 || perm == nperm - 1);
+                  if (!thorough) {
+                    const bool full_orders = (k == 3 && idir == 0 && off == 0 && first == 1 && ir % 2 == 1);
+                    keep = full_orders || (ends && first == (idir + off + ir) % 4 && k == 3 + (idir + off) % 2 &&
+                                           (id == (ir + off + idir) % 5 || id == 3 + (ir + off + idir + k) % 2));
+                  } else if (in == 0) {
+                    // four orders: the two ends and two in between
+                    const bool six = ends || perm == 7 || perm == 64 % nperm;
+                    const bool quick_dir = (idir == 0 || idir == 3 || idir == 4 || idir == 7 || idir == 13 || idir == 16);
+                    if (k == 3 && quick_dir && off == 0)
+                      keep = first < 2 || ends; // all 24 orders, g first / last; the ends also after the fillers
+                    else
+                      keep = six && first == (idir + off + ir + id + perm) % 4;
+                  } else if (in == 1) {
+                    keep = ends && k == 3 && off < 2 && first == (idir + off + ir + id) % 4;
+                  } else {
+                    keep = ends && k == 3 && off == 0 && ir % 2 == 1 && first == (idir + ir + id) % 4;
+                  }
+                  if (!keep)
+                    continue;
+                  SpikeParam S = {ntots[in], k, dir, off, perm, first, bsel[(idir + 2 * off + ir + id) % 4],
+                                  SPIKE_R[ir], SPIKE_DR[id]};
+                  if (spike_exists(S))
+                    L.push_back(S);
+                }
+            }
+      }
+  }
+  return L;
+}
+
 static std::vector< Case > thread_cases(bool thorough, long seed) {
   std::vector< Case > L;
   const int sizes_q[] = {5, 6, 7};
@@ -404,6 +823,27 @@ static std::vector< Case > thread_cases(bool thorough, long seed) {
         L.push_back(c);
       }
     }
+  // generic sets: 101, 201 generators = 2 and 3 jobs of the construction job market (job size 100), of which
+  // the last holds a single cell; 1000 / 2000 generators = more jobs than threads
+  {
+    std::vector< Case > G;
+    G.push_back(uniform_case(101, BOXES[1], 0));
+    G.push_back(uniform_case(201, BOXES[0], 0));
+    G.push_back(uniform_case(1000, BOXES[1], 0));
+    if (thorough) {
+      G.push_back(uniform_case(2000, BOXES[0], 0));
+      G.push_back(clustered_case(2000, BOXES[0], 0, 1.e-3));
+      G.push_back(sheet_case(1000, BOXES[3], 0, 1.e-3));
+      G.push_back(nearwall_random_case(1000, BOXES[2], 0, 1.e-3));
+    }
+    for (Case &c : G) {
+      c.threads = 4;
+      c.monitor = false;
+      c.name += ":threads=4";
+      c.family += "-threads";
+      L.push_back(c);
+    }
+  }
   return L;
 }
 
@@ -474,7 +914,17 @@ static std::string one_line(std::string s) {
       ch = ' ';
   return s;
 }
+static bool g_verbose_stages = false;
 static void w_begin(const char *stage) {
+  static auto t_last = std::chrono::steady_clock::now();
+  static std::string last;
+  if (g_verbose_stages) {
+    const auto now = std::chrono::steady_clock::now();
+    if (!last.empty())
+      printf("  [stage %s: %.2f s]\n", last.c_str(), std::chrono::duration< double >(now - t_last).count());
+    t_last = now;
+    last = stage;
+  }
   fprintf(g_wf, "B\t%ld\t%s\n", g_task, stage);
   fflush(g_wf);
 }
@@ -488,14 +938,16 @@ static void w_max(const std::string &k, double v) {
   if (it == g_max.end() || v > it->second)
     g_max[k] = v;
 }
+static std::chrono::steady_clock::time_point g_case_t0;
 static void w_end(long evals, long nontrivial) {
   for (auto &kv : g_cnt)
     fprintf(g_wf, "C\t%s\t%.17g\n", kv.first.c_str(), kv.second);
   for (auto &kv : g_max)
-    fprintf(g_wf, "M\t%s\t%.17g\n", kv.first.c_str(), kv.second);
+    fprintf(g_wf, "M\t%s\t%.17g\t%ld\n", kv.first.c_str(), kv.second, g_task);
   g_cnt.clear();
   g_max.clear();
-  fprintf(g_wf, "E\t%ld\t%ld\t%ld\n", g_task, evals, nontrivial);
+  fprintf(g_wf, "E\t%ld\t%ld\t%ld\t%.3f\n", g_task, evals, nontrivial,
+          std::chrono::duration< double >(std::chrono::steady_clock::now() - g_case_t0).count());
   fflush(g_wf);
 }
 
@@ -510,6 +962,9 @@ struct Tol {
   double Amin;    // faces below this area are ignored: 1e-12 L^2
   double rel_sum; // relative tolerance of the volume sum and of the wall area sums
   double extra;   // part of delta beyond the baseline 1e-10 L (conditioning / old tolerance)
+  // per-cell version of `extra` (cases with local_tol): 16 eps L^2 / s_i [+ 4 eps_old / s_i], s_i = smallest
+  // distance of generator i to another generator or to its own wall mirror image
+  std::vector< double > extra_cell;
 };
 
 /// Tolerances, derived once per case and construction:
@@ -531,6 +986,21 @@ static Tol make_tol(const Case &c, bool is_old) {
     for (int a = 0; a < 3; ++a) {
       s_wall = std::min(s_wall, 2. * (c.gen[i][a] - c.anchor[a]));
       s_wall = std::min(s_wall, 2. * (c.anchor[a] + c.sides[a] - c.gen[i][a]));
+    }
+  }
+  if (c.local_tol) {
+    T.extra_cell.assign(n, 0.);
+    for (size_t i = 0; i < n; ++i) {
+      double si = DBL_MAX;
+      for (size_t j = 0; j < n; ++j)
+        if (j != i)
+          si = std::min(si, (c.gen[i] - c.gen[j]).norm2());
+      si = std::sqrt(si);
+      for (int a = 0; a < 3; ++a) {
+        si = std::min(si, 2. * (c.gen[i][a] - c.anchor[a]));
+        si = std::min(si, 2. * (c.anchor[a] + c.sides[a] - c.gen[i][a]));
+      }
+      T.extra_cell[i] = 16. * DBL_EPSILON * T.L * T.L / si + (is_old ? 4. * OLD_TOL_SPEC * c.sides.norm2() / si : 0.);
     }
   }
   const double s_min = std::min(s_gen, s_wall);
@@ -591,7 +1061,31 @@ static bool validate(const char *who, const Case &c, const GridD &D, const std::
     for (const FaceD &F : D.cells[i].faces)
       if (F.area > 0. && std::isfinite(F.area))
         surface += F.area;
-  const double rel_sum = std::max(T.rel_sum, T.extra * surface / V);
+  double rel_sum = std::max(T.rel_sum, T.extra * surface / V);
+  std::vector< double > ecell; // local_tol: vertex accuracy of every cell under the conditioning model
+  if (c.local_tol) {
+    // Localised version of the same error model: a vertex of cell i is the circumcentre / plane intersection
+    // of generator i and three of its neighbours (or wall images); its conditioning is set by the smallest
+    // separation among the generators involved, i.e. at least min over i and its face neighbours j of s_j.
+    // Volume error of cell i <= (surface area of cell i) * (vertex error of cell i). Summation of n volumes
+    // and the arithmetic of each volume add 64 eps n. No 1e-10 floor.
+    double tol = 0.;
+    ecell.assign(n, 0.);
+    for (size_t i = 0; i < n; ++i) {
+      double e = T.extra_cell[i], A = 0.;
+      for (const FaceD &F : D.cells[i].faces) {
+        if (F.area > 0. && std::isfinite(F.area))
+          A += F.area;
+        if (F.ngb < n)
+          e = std::max(e, T.extra_cell[F.ngb]);
+      }
+      ecell[i] = e;
+      tol += A * e;
+    }
+    rel_sum = tol / V + 64. * DBL_EPSILON * n;
+    w_max(fmt("%s_local_volume_sum_tolerance_max", who), rel_sum);
+    w_max(fmt("%s_local_volume_sum_tolerance_min(negated)", who), -rel_sum);
+  }
   // 1. volumes
   double sum = 0.;
   for (size_t i = 0; i < n; ++i) {
@@ -612,7 +1106,7 @@ static bool validate(const char *who, const Case &c, const GridD &D, const std::
       w_count(fmt("%s_volume_sum_within_10x_of_tolerance", who));
   }
   // 2. faces
-  std::vector< double > wall_area(6, 0.);
+  std::vector< double > wall_area(6, 0.), wall_tol(6, 0.);
   for (size_t i = 0; i < n; ++i) {
     const CellD &Ci = D.cells[i];
     V3 closed(0.);
@@ -627,6 +1121,8 @@ static bool validate(const char *who, const Case &c, const GridD &D, const std::
         continue;
       }
       if (!(F.area > T.Amin)) {
+        if (c.local_tol && F.ngb >= WALL0) // not summed below: its area is part of the allowance
+          wall_tol[F.ngb - WALL0] += F.area;
         w_count(fmt("%s_faces_below_area_threshold", who));
         if (F.area > 1.e-3 * T.Amin)
           w_count(fmt("%s_faces_within_1000x_below_area_threshold", who));
@@ -647,6 +1143,8 @@ static bool validate(const char *who, const Case &c, const GridD &D, const std::
         const int axis = w / 2;
         const double coord = (w % 2) ? c.anchor[axis] + c.sides[axis] : c.anchor[axis];
         wall_area[w] += F.area;
+        if (c.local_tol) // area error of a polygon whose vertices are off by e: perimeter * e (factor 2)
+          wall_tol[w] += 2. * G.P * ecell[i] + 64. * DBL_EPSILON * F.area;
         V3 wn(0.);
         wn[axis] = (w % 2) ? 1. : -1.;
         closed += F.area * wn;
@@ -780,13 +1278,70 @@ static bool validate(const char *who, const Case &c, const GridD &D, const std::
     if (closed.norm() > 2. * closed_tol + 1.e-12 * T.L * T.L)
       w_count(fmt("%s_cells_whose_area_vectors_do_not_sum_to_zero(info)", who));
   }
+  // 2b. every vertex of every face above the area threshold lies inside the box and is not closer to another
+  // generator than to its own (brute force over all generators). |v-g_i|^2 - |v-g_j|^2 is linear in v, so a
+  // cell that misses the cut by generator j has a vertex strictly beyond the bisector plane of i and j: the
+  // test is complete for missed cuts. A vertex position is granted the accuracy T.delta, which moves its
+  // signed distance to any bisector plane by at most T.delta: tolerance 2 T.delta (factor 2 as elsewhere).
+  {
+    const double tolv = 2. * T.delta;
+    double worst = 0., worst_out = 0.;
+    std::string worst_detail, out_detail;
+    long nvert = 0;
+    for (size_t i = 0; i < n; ++i) {
+      const V3 &gi = c.gen[i];
+      for (const FaceD &F : D.cells[i].faces) {
+        if (!(F.area > T.Amin))
+          continue;
+        for (const V3 &v : F.v) {
+          ++nvert;
+          for (int a = 0; a < 3; ++a) {
+            const double out = std::max(c.anchor[a] - v[a], v[a] - (c.anchor[a] + c.sides[a]));
+            if (out > worst_out) {
+              worst_out = out;
+              if (out > tolv)
+                out_detail = fmt("cell %zu (generator %s): vertex %s of the face with %u lies %.3g outside the box "
+                                 "(tol %.3g)", i, v3s(gi).c_str(), v3s(v).c_str(), F.ngb, out, tolv);
+            }
+          }
+          const double r2 = (v - gi).norm2();
+          for (size_t j = 0; j < n; ++j) {
+            const double dx = v.x() - c.gen[j].x(), dy = v.y() - c.gen[j].y(), dz = v.z() - c.gen[j].z();
+            const double d2 = dx * dx + dy * dy + dz * dz;
+            if (d2 < r2 && j != i) {
+              const double depth = (r2 - d2) / (2. * (c.gen[j] - gi).norm());
+              if (depth > worst) {
+                worst = depth;
+                if (depth > tolv)
+                  worst_detail = fmt("cell %zu (generator %s): vertex %s of the face with %u lies %.3g beyond the "
+                                     "bisector plane with generator %zu %s, i.e. inside that cell (tol %.3g, %zu "
+                                     "generators)", i, v3s(gi).c_str(), v3s(v).c_str(), F.ngb, depth, j,
+                                     v3s(c.gen[j]).c_str(), tolv, n);
+              }
+            }
+          }
+        }
+      }
+    }
+    w_count(fmt("%s_vertices_checked_against_all_generators", who), (double)nvert);
+    w_max(fmt("%s_max_vertex_beyond_bisector_over_tol", who), worst / tolv);
+    w_max(fmt("%s_max_vertex_outside_box_over_tol", who), worst_out / tolv);
+    if (worst > tolv)
+      bad("vertex-beyond-bisector", worst_detail);
+    else if (worst > 0.1 * tolv)
+      w_count(fmt("%s_vertex_beyond_bisector_within_10x_of_tolerance", who));
+    if (worst_out > tolv)
+      bad("vertex-outside-box", out_detail);
+  }
   // the walls are covered exactly once
   for (int w = 0; w < 6; ++w) {
     const int axis = w / 2;
     const double A = c.sides[(axis + 1) % 3] * c.sides[(axis + 2) % 3];
     const double err = std::fabs(wall_area[w] - A) / A;
     w_max(fmt("%s_max_rel_wall_area_error", who), err);
-    if (!(err <= 10. * rel_sum))
+    const double lim = c.local_tol ? wall_tol[w] / A : 10. * rel_sum;
+    w_max(fmt("%s_max_wall_area_error_over_tol", who), err / lim);
+    if (!(err <= lim))
       bad("wall-area-sum", fmt("faces on wall %d sum to %.17g, wall area %.17g", w, wall_area[w], A));
   }
   // 3. get_index = nearest generator
@@ -1008,6 +1563,229 @@ static std::string diagnose_forked(const Case &c, std::string &what) {
   return msg[0] == '1' ? ":flat-real-tetrahedron" : ":unclassified";
 }
 
+
+// ---------------------------------------------------------------------------
+// search-radius invariants, checked on every intermediate state of every cell (reads private state)
+// ---------------------------------------------------------------------------
+// Both grid classes stop the neighbour search of a cell as soon as the region covered by the searched
+// blocks contains the sphere of radius 2 R_max around the generator, R_max = largest distance of a vertex of
+// the current cell. Whatever the implementation, the value it uses for that decision has to bound the
+// vertex distances of the cell *in every intermediate state*; if it is too small generators are skipped.
+//  old: OldVoronoiCell::get_max_radius_squared() is documented as "squared maximum distance between the cell
+//       generator and any of its vertices": demanded >= max |v|^2 (1 - 4 eps) over the stored vertices.
+//  new: NewVoronoiCellConstructor::get_max_radius_squared() is documented as "maximum distance (squared)
+//       between the cell generator and an arbitrary other generator that still could change the cell
+//       structure": a generator changes the cell iff it lies inside the circumsphere of a tetrahedron that has
+//       the cell generator as a vertex, i.e. within 2 r_circ: demanded >= 4 r_circ^2 (1 - tol) for every such
+//       active tetrahedron; r_circ from an independent long double circumcentre; tol = 64 eps / flatness
+//       (relative error of a circumcentre computed in double from a tetrahedron of that flatness, both sides),
+//       tetrahedra with tol >= 0.5 are skipped and counted.
+// Histories: the generators are inserted (a) in order of distance, (b) for sets of at most 120 generators also
+// in index order (far generators first: many more intermediate states), without any pruning by the harness
+// other than its own bound (distance^2 > 4 max vertex distance^2 (1 + 1e-9) for the old cell).
+struct MonitorStats {
+  long states_old = 0, states_new = 0, skipped_flat = 0;
+  double worst_old = 0.; // largest (required - reported) / required
+  double worst_new = 0.; // largest (required - reported) / required / tolerance
+  double bad_new_def = 0.;
+  std::string worst_new_detail;
+  std::string bad_old, bad_new;
+};
+
+static void old_radius_state(const OldVoronoiCell &cell, size_t i, size_t last, const Case &c, MonitorStats &M) {
+  double r2 = 0.;
+  size_t arg = 0;
+  for (size_t k = 0; k < cell._vertices.size(); ++k) {
+    const double q = cell._vertices[k].norm2();
+    if (q > r2) {
+      r2 = q;
+      arg = k;
+    }
+  }
+  ++M.states_old;
+  const double rep = cell.get_max_radius_squared();
+  const double def = (r2 - rep) / r2;
+  if (def > M.worst_old)
+    M.worst_old = def;
+  if (!(rep >= r2 * (1. - 4. * DBL_EPSILON)) && M.bad_old.empty())
+    M.bad_old = fmt("case %s: cell %zu (generator %s) after the insertion of generator %zu: "
+                    "OldVoronoiCell::get_max_radius_squared() = %.17g, but stored vertex %zu of %zu is at squared "
+                    "distance %.17g from the generator",
+                    c.name.c_str(), i, v3s(c.gen[i]).c_str(), last, rep, arg, cell._vertices.size(), r2);
+}
+
+static void monitor_old(const Case &c, MonitorStats &M) {
+  const size_t n = c.gen.size();
+  const Box<> box(c.anchor, c.sides);
+  const double eps = OLD_TOL_SPEC * c.sides.norm2();
+  std::vector< std::pair< double, size_t > > order(n);
+  for (int hist = 0; hist < 2; ++hist) {
+    if (hist == 1 && n > 120)
+      break;
+    for (size_t i = 0; i < n; ++i) {
+      OldVoronoiCell cell(c.gen[i], box);
+      old_radius_state(cell, i, i, c, M);
+      for (size_t j = 0; j < n; ++j)
+        order[j] = std::make_pair(hist == 0 ? (c.gen[j] - c.gen[i]).norm2() : (double)j, j);
+      if (hist == 0)
+        std::sort(order.begin(), order.end());
+      for (size_t q = 0; q < n; ++q) {
+        const size_t j = order[q].second;
+        if (j == i)
+          continue;
+        // the harness' own bound: a generator farther than twice the largest vertex distance cannot cut
+        double r2 = 0.;
+        for (const V3 &v : cell._vertices)
+          r2 = std::max(r2, v.norm2());
+        const double d2 = (c.gen[j] - c.gen[i]).norm2();
+        if (d2 > 4. * r2 * (1. + 1.e-9)) {
+          if (hist == 0)
+            break;
+          continue;
+        }
+        cell.intersect(c.gen[j] - c.gen[i], j, eps);
+        old_radius_state(cell, i, j, c, M);
+      }
+    }
+  }
+}
+
+static void monitor_new(const Case &c, MonitorStats &M) {
+  const size_t n = c.gen.size();
+  const NewVoronoiGrid g(c.gen, Box<>(c.anchor, c.sides));
+  NewVoronoiCellConstructor C;
+  std::vector< std::pair< double, size_t > > order(n);
+  auto state = [&](size_t i, size_t last) {
+    ++M.states_new;
+    const double rep = C.get_max_radius_squared();
+    const V3 gi = c.gen[i];
+    for (uint_fast32_t t = 0; t < C._tetrahedra_size; ++t) {
+      const NewVoronoiTetrahedron &Tt = C._tetrahedra[t];
+      if (!Tt.is_active())
+        continue;
+      int k0 = -1;
+      for (int k = 0; k < 4; ++k)
+        if (Tt.get_vertex(k) == 0)
+          k0 = k;
+      if (k0 < 0)
+        continue;
+      // reference: circumcentre relative to the generator in long double, from scratch
+      V3 P[4];
+      for (int k = 0; k < 4; ++k)
+        P[k] = C.get_position(C._vertices[Tt.get_vertex(k)], g._real_voronoi_box, g._real_generator_positions);
+      long double e[3][3];
+      int m = 0;
+      for (int k = 0; k < 4; ++k) {
+        if (k == k0)
+          continue;
+        for (int a = 0; a < 3; ++a)
+          e[m][a] = (long double)P[k][a] - gi[a];
+        ++m;
+      }
+      auto cross = [](const long double *a, const long double *b, long double *o) {
+        o[0] = a[1] * b[2] - a[2] * b[1];
+        o[1] = a[2] * b[0] - a[0] * b[2];
+        o[2] = a[0] * b[1] - a[1] * b[0];
+      };
+      long double l2[3], bc[3], ca[3], ab[3], x[3];
+      for (int k = 0; k < 3; ++k)
+        l2[k] = e[k][0] * e[k][0] + e[k][1] * e[k][1] + e[k][2] * e[k][2];
+      cross(e[1], e[2], bc);
+      cross(e[2], e[0], ca);
+      cross(e[0], e[1], ab);
+      const long double det = e[0][0] * bc[0] + e[0][1] * bc[1] + e[0][2] * bc[2];
+      if (det == 0.) {
+        ++M.skipped_flat;
+        continue;
+      }
+      for (int a = 0; a < 3; ++a)
+        x[a] = (l2[0] * bc[a] + l2[1] * ca[a] + l2[2] * ab[a]) / (2. * det);
+      const double r2 = (double)(x[0] * x[0] + x[1] * x[1] + x[2] * x[2]);
+      // tolerance: first-order running error bound of a double evaluation of the textbook formula
+      //   m = v0 + R / V,  R_a = sum_k |r_k|^2 (r_i x r_j)_a,  V = 2 det(r_1, r_2, r_3),  r_k = v_k - v0
+      // with v0 = first vertex of the tetrahedron (edges from a far vertex make the result a difference of
+      // large numbers): |dR_a|, |dV| <= 16 eps sum |products| (every product of the sums carries at most 16
+      // roundings: the edge differences, |r|^2, the 2x2 minors, the sums), one rounding each for 1/V, the
+      // product, "+ v0" and "- generator"; d(r^2) = 2 r |dm| + 4 eps r^2 (norm2); factor 2 on top.
+      long double rr[3][3], f[3];
+      for (int k = 0; k < 3; ++k) {
+        f[k] = 0.;
+        for (int a = 0; a < 3; ++a) {
+          rr[k][a] = (long double)P[k + 1][a] - P[0][a];
+          f[k] += rr[k][a] * rr[k][a];
+        }
+      }
+      const long double Vabs =
+          2. * (fabsl(rr[0][0] * rr[1][1] * rr[2][2]) + fabsl(rr[0][1] * rr[1][2] * rr[2][0]) +
+                fabsl(rr[0][2] * rr[1][0] * rr[2][1]) + fabsl(rr[0][2] * rr[1][1] * rr[2][0]) +
+                fabsl(rr[1][2] * rr[2][1] * rr[0][0]) + fabsl(rr[2][2] * rr[0][1] * rr[1][0]));
+      const long double Vv = 2. * (rr[0][0] * (rr[1][1] * rr[2][2] - rr[1][2] * rr[2][1]) -
+                                   rr[0][1] * (rr[1][0] * rr[2][2] - rr[1][2] * rr[2][0]) +
+                                   rr[0][2] * (rr[1][0] * rr[2][1] - rr[1][1] * rr[2][0]));
+      long double dm2 = 0.;
+      for (int a = 0; a < 3; ++a) {
+        const int b1 = (a + 1) % 3, c1 = (a + 2) % 3;
+        auto absx = [&](int i, int j) { return fabsl(rr[i][b1] * rr[j][c1]) + fabsl(rr[i][c1] * rr[j][b1]); };
+        const long double Rabs = f[2] * absx(0, 1) + f[1] * absx(2, 0) + f[0] * absx(1, 2);
+        const long double xa = fabsl(x[a] + gi[a] - P[0][a]); // component of the centre relative to v0
+        const long double dma = DBL_EPSILON * ((16. * Rabs + 16. * xa * Vabs) / fabsl(Vv) + 2. * xa +
+                                               fabsl(x[a] + gi[a]) + fabsl(P[0][a]) + fabsl(x[a]));
+        dm2 += dma * dma;
+      }
+      const double tol = r2 > 0. ? (double)(2. * (2. * sqrtl(dm2) / std::sqrt(r2) + 4. * DBL_EPSILON)) : 1.;
+      if (!(tol < 0.5)) {
+        ++M.skipped_flat;
+        continue;
+      }
+      w_max("monitor_new_largest_relative_tolerance", tol);
+      const double need = 4. * r2;
+      const double def = (need - rep) / need;
+      const double over = def / tol;
+      if (over > M.worst_new) {
+        M.worst_new = over;
+        if (g_verbose_stages)
+          M.worst_new_detail = fmt("cell %zu after generator %zu: tetrahedron %u vertices %u %u %u %u: reported %.17g "
+                                   "required %.17g tol %.3g", i, last, (unsigned)t,
+                                   (unsigned)C._vertices[Tt.get_vertex(0)], (unsigned)C._vertices[Tt.get_vertex(1)],
+                                   (unsigned)C._vertices[Tt.get_vertex(2)], (unsigned)C._vertices[Tt.get_vertex(3)], rep,
+                                   need, tol);
+      }
+      if (!(rep >= need * (1. - tol)) && (M.bad_new.empty() || def > M.bad_new_def) && (M.bad_new_def = def, true))
+        M.bad_new = fmt("case %s: cell %zu (generator %s) after the insertion of generator %zu: "
+                        "NewVoronoiCellConstructor::get_max_radius_squared() = %.17g, but active tetrahedron %u "
+                        "(vertices %u %u %u %u, slot %u of %u) has the generator as a vertex and circumradius^2 "
+                        "%.17g: generators up to squared distance %.17g can still change the cell (rel. tol %.3g)",
+                        c.name.c_str(), i, v3s(gi).c_str(), last, rep, (unsigned)t,
+                        (unsigned)C._vertices[Tt.get_vertex(0)], (unsigned)C._vertices[Tt.get_vertex(1)],
+                        (unsigned)C._vertices[Tt.get_vertex(2)], (unsigned)C._vertices[Tt.get_vertex(3)], (unsigned)t,
+                        (unsigned)C._tetrahedra_size, r2, need, tol);
+    }
+  };
+  for (int hist = 0; hist < 2; ++hist) {
+    if (hist == 1 && n > 120)
+      break;
+    for (size_t i = 0; i < n; ++i) {
+      C.setup(i, g._real_generator_positions, g._real_voronoi_box, g._real_rescaled_positions, g._real_rescaled_box,
+              true);
+      state(i, i);
+      for (size_t j = 0; j < n; ++j)
+        order[j] = std::make_pair(hist == 0 ? (c.gen[j] - c.gen[i]).norm2() : (double)j, j);
+      if (hist == 0)
+        std::sort(order.begin(), order.end());
+      for (size_t q = 0; q < n; ++q) {
+        const size_t j = order[q].second;
+        if (j == i)
+          continue;
+        const uint_fast32_t before = C._vertices_size;
+        C.intersect(j, g._real_rescaled_box, g._real_rescaled_positions, g._real_voronoi_box,
+                    g._real_generator_positions);
+        if (C._vertices_size != before)
+          state(i, j);
+      }
+    }
+  }
+}
+
 static bool identical(const GridD &A, const GridD &B, std::string &what) {
   if (A.cells.size() != B.cells.size()) {
     what = "cell count";
@@ -1051,11 +1829,16 @@ static std::vector< V3 > query_lattice(const Case &c) {
 
 /// everything for one case, inside the worker
 static void run_case(const Case &c, int stage_timeout, bool verbose) {
+  g_verbose_stages = verbose;
+  g_case_t0 = std::chrono::steady_clock::now();
   const std::vector< V3 > Q = query_lattice(c);
   const Tol T = make_tol(c, false);
   const Tol TO = make_tol(c, true);
   long evals = 0;
   GridD N, O;
+  // the incremental construction of a clustered / sheet set of 1000..2000 takes 10..30 s on an idle core
+  // (factor capped at 4 so that a hang stays inside the hard limit of the driver)
+  stage_timeout *= std::min(4, 1 + (int)(c.gen.size() / 250));
   alarm(stage_timeout);
   // precondition of the exact predicates
   w_begin("new-precondition");
@@ -1148,8 +1931,37 @@ static void run_case(const Case &c, int stage_timeout, bool verbose) {
         w_count("old_threaded_identical_to_serial");
     }
   }
+  if (c.monitor) {
+    MonitorStats M;
+    alarm(4 * stage_timeout);
+    w_begin("new-search-radius-monitor");
+    monitor_new(c, M);
+    if (!M.bad_new.empty())
+      w_violation("C15:new:search-radius-below-circumsphere:" + c.family, M.bad_new);
+    if (c.run_old) {
+      w_begin(c.old_in_domain ? "old-search-radius-monitor" : "old(outside-domain)-search-radius-monitor");
+      monitor_old(c, M);
+      // the documented contract of get_max_radius_squared() does not depend on the tolerance domain
+      if (!M.bad_old.empty())
+        w_violation("C15:old:search-radius-below-vertex-distance:" + c.family, M.bad_old);
+    }
+    w_count("monitor_cell_states_new", (double)M.states_new);
+    w_count("monitor_cell_states_old", (double)M.states_old);
+    w_count("monitor_tetrahedra_skipped_as_too_flat", (double)M.skipped_flat);
+    w_max("monitor_new_worst_deficit_over_tol", M.worst_new);
+    w_max("monitor_old_worst_relative_deficit", M.worst_old);
+    if (verbose && !M.worst_new_detail.empty())
+      printf("  search-radius monitor, state closest to the tolerance: %s\n", M.worst_new_detail.c_str());
+    if (verbose)
+      printf("  search-radius monitor: %ld new / %ld old cell states, worst deficits %.3g / %.3g\n", M.states_new,
+             M.states_old, M.worst_new, M.worst_old);
+  }
+  w_begin("end");
   alarm(0);
   w_count("cells", (double)c.gen.size());
+  w_count("cases_of_family:" + c.family);
+  w_max("largest_generator_count_of_family:" + c.family, (double)c.gen.size());
+  w_max("smallest_generator_count_of_family(negated):" + c.family, -(double)c.gen.size());
   w_end(evals, 1);
 }
 
@@ -1165,15 +1977,18 @@ struct Provider {
   std::string mode;
   long seed;
   bool thorough;
-  std::vector< Case > list;       // families / threads
+  std::vector< Case > list;       // families / threads / generic
+  std::vector< SpikeParam > spikes; // spikes (generated on demand)
   const std::vector< uint32_t > *masks = nullptr; // subsets
   std::vector< double > amps;                      // perturbation amplitudes of the subsets
   long nsub() const { return masks ? (long)(masks->size() * amps.size()) : 0; }
-  long size() const { return nsub() + (long)list.size(); }
+  long size() const { return nsub() + (long)list.size() + (long)spikes.size(); }
   Case get(long i) const {
     if (i < nsub())
       return subset_case((*masks)[i % masks->size()], amps[i / masks->size()], seed);
-    return list[i - nsub()];
+    if (i - nsub() < (long)list.size())
+      return list[i - nsub()];
+    return spike_case(spikes[i - nsub() - (long)list.size()]);
   }
   long find(const std::string &name) const {
     for (long i = 0; i < size(); ++i)
@@ -1200,6 +2015,10 @@ static Provider make_provider(const std::string &mode, bool thorough, long seed)
     }
   } else if (mode == "families") {
     P.list = family_cases(thorough, seed);
+  } else if (mode == "generic") {
+    P.list = generic_cases(thorough);
+  } else if (mode == "spikes") {
+    P.spikes = spike_params(thorough);
   } else if (mode == "threads") {
     P.list = thread_cases(thorough, seed);
   } else {
@@ -1249,6 +2068,8 @@ static std::string tail_of(const std::string &file, size_t n) {
   return one_line(s);
 }
 
+/// case number that attained the maximum of every "*over_tol*" quantity
+static std::map< std::string, long > g_argmax;
 /// parse one worker file into R; returns the unfinished task (or -1) and its stage
 static void absorb(const std::string &file, Result &R, std::map< std::string, double > &cnt,
                    std::map< std::string, double > &mx, const Provider &P, long &open_task, std::string &open_stage,
@@ -1281,6 +2102,15 @@ static void absorb(const std::string &file, Result &R, std::map< std::string, do
       R.evaluations += atol(f[2].c_str());
       R.nontrivial += atol(f[3].c_str());
       done.insert(t);
+      if (f.size() >= 5) {
+        const double sec = atof(f[4].c_str());
+        auto it = mx.find("slowest_case_seconds");
+        if (it == mx.end() || sec > it->second) {
+          mx["slowest_case_seconds"] = sec;
+          mx["slowest_case_number"] = (double)t;
+        }
+        cnt["case_seconds_total"] += sec;
+      }
       if (t % 97 == 0 || P.size() < 400) {
         const Case c = P.get(t);
         R.sample(fmt("{\"case\": \"%s\", \"family\": \"%s\", \"generators\": %zu, \"first\": \"%s\"}", c.name.c_str(),
@@ -1297,8 +2127,11 @@ static void absorb(const std::string &file, Result &R, std::map< std::string, do
     } else if (f[0] == "M" && f.size() >= 3) {
       const double v = atof(f[2].c_str());
       auto it = mx.find(f[1]);
-      if (it == mx.end() || v > it->second)
+      if (it == mx.end() || v > it->second) {
         mx[f[1]] = v;
+        if (f.size() >= 4 && f[1].find("over_tol") != std::string::npos)
+          g_argmax[f[1]] = atol(f[3].c_str());
+      }
     }
   }
 }
@@ -1395,6 +2228,13 @@ static int run_pool(const Provider &P, Result &R, const Args &A, int nworkers, i
     R.set(kv.first, kv.second);
   for (auto &kv : mx)
     R.set(kv.first, kv.second);
+  for (auto &kv : g_argmax)
+    if (mx[kv.first] > 0.01)
+      R.set_str(kv.first + "@case", P.get(kv.second).name);
+  if (mx.count("slowest_case_number")) {
+    R.set_str("slowest_case", P.get((long)mx["slowest_case_number"]).name);
+    R.extra.erase("slowest_case_number");
+  }
   R.set("cases", (double)n);
   R.set("cases_done", (double)done.size());
   R.set("worker_processes_ended_abnormally", (double)abnormal);
@@ -1493,12 +2333,39 @@ int main(int argc, char **argv) {
   int nworkers = (int)A.geti("workers", mode == "threads" ? 4 : 16);
   run_pool(P, R, A, nworkers, stage_timeout);
   R.set_str("mode", mode);
+  if (mode == "generic")
+    R.set_str("alphabet",
+              fmt("named deterministic generator sets (splitmix64 from fnv1a of the member name, independent of VERIF_SEED): "
+                  "families uniform-random, clustered-power-law (3 clusters r = 0.3 u^2.5 + 10%% background, min. separation "
+                  "1e-3%s), near-wall-random (30%% of the coordinates within 1e-3%s of a wall), nearly-coplanar-sheet (95%% "
+                  "within 5e-4%s of a tilted plane); generator counts 2,3,4,5,9,10,11,15,16,19,20,39,40,42,43,99,100,101,159,"
+                  "160,199,200,201 (block-count thresholds of PointLocations for 1 and 10 generators per block, job size 100) "
+                  "and %s; boxes 1x1x1, 1x2x4, 1x1x100, unit cube at (-2,0.5,10); %ld sets in this tier; every cell of "
+                  "every set additionally driven by hand through the search-radius monitor (insertion by distance, for <= 120 "
+                  "generators also by index)",
+                  A.thorough() ? " and 1e-5" : "", A.thorough() ? " and 1e-5" : "", A.thorough() ? " and 5e-3" : "",
+                  A.thorough() ? "500, 1000, 1500, 2000 (2000: 24 uniform, 8 clustered 1e-3, 4 clustered 1e-5, 8 near-wall; sheets up to 1000)"
+                               : "300 (sheet), 500, 1000, 2000 (2000: 2 uniform sets; clustered up to 500)",
+                  P.size()));
+  if (mode == "spikes")
+    R.set_str("alphabet",
+              fmt("spike members = (generators 60%s) x (3|4 cone neighbours) x (direction: %s) x (g at the block centre / "
+                  "offset (0.3,0,0) / (-0.25,0.3,0.2) blocks) x (apex distance R 0.10,0.14,0.19,0.26) x (h at D/R = 0.9,1.3,"
+                  "1.7,1.95 | 2.1: cuts / does not cut the apex) x (order of cone and back neighbours in the index list) x (g "
+                  "first/last, specials before/after the fillers) x (box 1x1x1, 1x1x1@(-2,0.5,10), 1x2x4); members whose "
+                  "special generators fall outside the box do not exist; %ld members in this tier (selection rule: "
+                  "spike_params() in the harness / NOTES.md); search-radius monitor on every second member",
+                  A.thorough() ? ", 270, 1250" : "", A.thorough() ? "6 axes, 6 face and 4 body diagonals, 2 generic" : "+x, -y, +z, (1,-1,0), (-1,1,1), (0.8,0.31,-0.52)",
+                  P.size()));
   R.rule = "evaluations = grid constructions of the real code (new and old, serial and threaded) that ran to completion "
            "and were checked; non-trivial = generator sets completely processed. Per construction: volumes > 0 and "
            "summing to the box volume, every face above 1e-12 L^2 has a partner of equal area, opposite orientation and "
            "matching midpoint, lies on the bisector of the two generators, walls covered exactly once, generator "
-           "inside its cell, get_index on a 17^3 query lattice = brute-force nearest generator; old vs new: volumes, "
-           "centroids, neighbour sets. Families are enumerated completely (subsets: all 2..4-subsets of the 3^3 "
+           "inside its cell, every face vertex inside the box and not beyond the bisector plane with any other generator "
+           "(brute force; complete for missed cuts), get_index on a 17^3 query lattice = brute-force nearest generator; "
+           "old vs new: volumes, centroids, neighbour sets; parts generic/spikes: search radius reported by the cell "
+           "classes >= the largest vertex / circumsphere distance in every intermediate state of every cell. Families are "
+           "enumerated completely (subsets: all 2..4-subsets of the 3^3 "
            "lattice in the thorough tier, one representative per orbit of the 48 cube symmetries in the quick tier).";
   R.assumptions.push_back("the old (plane cutting) construction is bound by the property only on inputs that are farther "
                           "from degeneracy than its own tolerance OLDVORONOI_TOLERANCE (perturbed sets, clusters down to "
